@@ -350,6 +350,7 @@ def kill_points(chk, tool, shim, model_exe, work, tier, stats):
         root = os.path.join(work, 'stale_%d_%s' % (nc, spec['name']))
         os.makedirs(root)
         sc = K.KillScenario(tool, shim, root, nc, chk.rng, spec=spec)
+        sc.model_exe = model_exe
         try:
             sc.prepare()
             if sc.final[0][:8] != b'SNAPCNT3':
@@ -362,6 +363,12 @@ def kill_points(chk, tool, shim, model_exe, work, tier, stats):
             if reported < 14:
                 reported += 1
                 chk.violation('stalecopy_%dcopies' % nc, what, rep)
+        if not probs and getattr(sc, 'drift', None) and reported < 14:
+            reported += 1
+            dd = sc.drift[0]
+            chk.violation('model_drift_needwrite_%d' % nc, 'MODEL-DRIFT: LoadChoice.need_write says %s for copies of sizes `%s` but the tool %s the content (%s of %s, `%s`); '
+                          'all copies ended identical, so the property holds on this input and the model is stale' % (
+                              dd['model'], dd['model_line'], 'saved' if dd['tool_saved'] else 'did not save', dd['how'], dd['damaged_copy'], ' '.join(dd['cmd'])), dd, no_input=True)
         st = dict(sc.stats.get('stale_copy', {}), copies=nc, shape=spec['name'])
         allstats.append(st)
         total += st.get('cases', 0) * 2
